@@ -565,8 +565,9 @@ class BasicOperator(AbstractBasicConstruct):
         return self._operator
 
 
-class BasicOpExp(AbstractBasicConstruct):
+class BasicOpExp(AbstractBasicExpression):
     def __init__(self, operator, exp):
+        super().__init__(is_str_expr=False)
         self._operator = operator
         self._exp = exp
 
